@@ -29,7 +29,8 @@ COMMON = ['-std=c++17', '-O1', '-g', '-Wall', '-Wno-unused-variable', '-Wno-unus
           '-Wno-unused-lambda-capture', '-Wno-unused-value', '-Wno-unused-parameter']
 LINK = ['-Wl,--wrap=pthread_mutex_lock', '-Wl,--wrap=pthread_mutex_unlock', '-Wl,--wrap=pthread_mutex_trylock',
         '-Wl,--wrap=pthread_rwlock_rdlock', '-Wl,--wrap=pthread_rwlock_wrlock', '-Wl,--wrap=pthread_rwlock_tryrdlock',
-        '-Wl,--wrap=pthread_rwlock_trywrlock', '-Wl,--wrap=pthread_rwlock_unlock', '-lpthread']
+        '-Wl,--wrap=pthread_rwlock_trywrlock', '-Wl,--wrap=pthread_rwlock_unlock',
+        '-Wl,--wrap=pthread_mutex_timedlock', '-Wl,--wrap=pthread_mutex_clocklock', '-lpthread']
 
 SAN_ENV = {
     'ASAN_OPTIONS': 'detect_stack_use_after_return=1:detect_leaks=0:abort_on_error=0:exitcode=97:allocator_may_return_null=1',
